@@ -132,6 +132,16 @@ var behaviours = []string{"ok", "ok", "ok", "ok", "short", "long", "nil",
 
 // serveScripted runs the real handleTransport on the given stream and returns the canonical
 // event string (handler calls and responses in order, then closed|ended).
+// serveScriptedWriteFail: like serveScripted, but every response write fails (peer gone after the
+// request was fully received): the handler must still have run exactly once per complete request.
+func serveScriptedWriteFail(script []string, chunks [][]byte, ending string) (ev string, h *scriptedHandler) {
+	writeFail = true
+	defer func() { writeFail = false }()
+	return serveScripted(script, chunks, ending)
+}
+
+var writeFail = false
+
 func serveScripted(script []string, chunks [][]byte, ending string) (ev string, h *scriptedHandler) {
 	var events []string
 	var evmu sync.Mutex
@@ -142,6 +152,9 @@ func serveScripted(script []string, chunks [][]byte, ending string) (ev string, 
 	}
 	conn := NewScriptConn()
 	conn.Arm(chunks, ending)
+	if writeFail {
+		conn.WriteErr = errReset
+	}
 	conn.OnWrite = func(b []byte) {
 		evmu.Lock()
 		events = append(events, "resp:"+hx(b))
